@@ -14,7 +14,10 @@ sys.path.insert(0, os.path.dirname(os.path.abspath(__file__)))
 import assemble as A  # noqa: E402
 
 VERIF = A.VERIF
-CACHE = os.path.join(VERIF, '.cache')
+import hashlib
+_REPO = os.path.realpath(os.environ.get('VERIF_REPO', '/repo'))
+# one scratch area per repository tree AND per process, so that concurrent runs never share assembled files
+CACHE = os.path.join(VERIF, '.cache', 'run_%s_%d' % (hashlib.sha1(_REPO.encode()).hexdigest()[:8], os.getpid()))
 UNITS = os.path.join(VERIF, 'units')
 VERUS_FLAGS = ['--output-json', '--time', '--multiple-errors', '20', '--triggers-mode', 'silent', '--rlimit', '40']   # 4x the default resource limit: head-room for the heaviest lemma (deterministic, not time based)
 
@@ -563,6 +566,9 @@ def check_property(pid, tier='quick', seed=0, extra=None):
         rc = 2
     else:
         print('OK %s: %d/%d obligations discharged in %d unit(s), %.1fs' % (pid, discharged, obligations, len(results), time.time() - t0))
+    if rc == 0 and not os.environ.get('VERIF_KEEP_CACHE'):
+        import shutil
+        shutil.rmtree(CACHE, ignore_errors=True)
     return rc
 
 
